@@ -10,7 +10,7 @@ ASSUMPTIONS = ["upstream header values are CR/LF-free and already trimmed (what 
 TRUSTED = ["the upstream server is a QTcpServer in the harness; loopback TCP may coalesce segments sent within a few ms (each is flushed and the event loop pumped)"]
 
 CODES = [99, 100, 101, 200, 204, 206, 301, 404, 418, 500, 599, 600, 0, 1000, -1]
-REASONS = [b"OK", b"", b"Not Found", b"I AM A TEAPOT", b"x  y"]
+REASONS = [b"OK", b"", b"Not Found", b"I AM A TEAPOT", b"x  y", b"Non trouv\xe9", b"\xff\xfe", b"caf\xc3\xa9"]
 HDRS = [(b"Set-Cookie", b"a=1"), (b"Set-Cookie", b"b=2"), (b"set-cookie", b"c=3"), (b"Content-Type", b"text/plain"), (b"X-Up", b"1"),
         (b"Content-Length", None), (b"Vary", b"a, b"), (b"X-Empty", b""),
         # values with runs of blanks and tabs inside: they are part of the value
